@@ -317,7 +317,7 @@ def one_run(ctx, c, family="opt"):
 def run_shard(ctx):
     for c in ctx.case_ids(16 * 20, 16 * 16 * 60):
         one_run(ctx, c)
-    for c in ctx.case_ids(600, 30000):
+    for c in ctx.case_ids(2400, 60000):
         one_run(ctx, c, "cheap")
     # live-object histories; case ids are handed out in whole triples so that A, B, C of one history run in the same shard
     for t_ in ctx.case_ids(16 * 4, 16 * 16 * 6):
